@@ -274,7 +274,7 @@ def start_child(jobfile, logfile, cwd):
            PY, '-W', 'ignore', '-m', 'harness.fstrace', str(jobfile)]
     env = dict(os.environ)
     # CTMVERIF_SRC: run the traced stages from another source tree (experiments with patched copies)
-    env['PYTHONPATH'] = f"{os.environ.get('CTMVERIF_SRC', '/repo/src')}:{VERIF}"
+    env['PYTHONPATH'] = f"{os.environ.get('CTMVERIF_SRC', os.environ.get('VERIF_REPO', '/repo') + '/src')}:{VERIF}"
     env['PYTHONDONTWRITEBYTECODE'] = '1'
     env['CELL_TYPE_MAPPER_VERIF'] = '1'
     for k in ('OMP_NUM_THREADS', 'OPENBLAS_NUM_THREADS', 'MKL_NUM_THREADS', 'NUMEXPR_NUM_THREADS'):
